@@ -215,6 +215,14 @@ def run_case(spec, ctx):
                             ctx.violation(KNOWN_F9 if f9 else "non-sensitive-slot-changed", {"slot": shown, "got": got, "line": line, "output": o})
                             continue
                         got = got[:len(got) - len(suffix)]
+                    if k == "kw" and shown != v:
+                        i_ = shown.index(v)
+                        pre_, post_ = shown[:i_], shown[i_ + len(v):]
+                        ctx.count("keyword_slots_inside_a_longer_word")
+                        if not (got.startswith(pre_) and got.endswith(post_) and len(got) >= len(pre_) + len(post_)):
+                            ctx.violation("non-sensitive-slot-changed", {"slot": shown, "got": got, "line": line, "output": o})
+                            continue
+                        got = got[len(pre_):len(got) - len(post_)]
                     if k == "kw" and v in nested_kw:
                         ctx.count("nested_keyword_slots")
                         continue        # which of two overlapping keywords wins is not fixed; judged through the mapping below
